@@ -1,7 +1,7 @@
 #!/bin/bash
 # Re-evaluates every kept seeded change against its target check (and related ones); writes seeded/<id>/result.txt
 cd "$(dirname "$0")/.."
-declare -A REL=( [C01]="C01 C02 C03" [C02]="C02 C01 C03" [C03]="C03 C12 C08" [C04]="C04 C10 C01" [C05]="C05 C10" [C06]="C06 C10" [C07]="C07" [C08]="C08 C11" [C09]="C09 C01 C16" [C10]="C10 C14 C15" [C11]="C11 C08 C14 C17" [C12]="C12 C03" [C13]="C13 C14" [C14]="C14 C13" [C15]="C15" [C16]="C16 C17" [C17]="C17 C16" [C18]="C18 C03" [C19]="C19 C14" [C20]="C20" )
+declare -A REL=( [C01]="C01 C02 C03" [C02]="C02 C01 C03" [C03]="C03 C12 C08" [C04]="C04 C10 C01" [C05]="C05 C10" [C06]="C06 C10 C19" [C07]="C07" [C08]="C08 C11" [C09]="C09 C01 C16" [C10]="C10 C14 C15" [C11]="C11 C08 C14 C17" [C12]="C12 C03" [C13]="C13 C14" [C14]="C14 C13" [C15]="C15" [C16]="C16 C17" [C17]="C17 C16" [C18]="C18 C03" [C19]="C19 C14" [C20]="C20" )
 for d in ${@:-seeded/*/}; do
   id=$(basename $d); p=$(echo $id | grep -o "C[0-9][0-9]" | head -1)
   checks=${REL[$p]:-$p}; [ -n "${SEEDMATRIX_TARGET_ONLY:-}" ] && checks=$p   # target check only (related checks on a second pass for the misses)
